@@ -229,6 +229,26 @@ func join(xs []string) string {
 // State is the canonical projection of the module state the observation lines carry (hx.Stater).
 func (r *R) State(ctx sdk.Context) string { return r.state(ctx) }
 
+// Continuation implements hx.Continuer: one begin block at every future height at which an open
+// contract of ctx expires (ascending), so that every pending refund falls due.
+func (r *R) Continuation(ctx sdk.Context) []string {
+	seen := map[uint64]bool{}
+	var hs []uint64
+	for _, h := range r.htlcs(ctx) {
+		if h.State == htlctypes.Open && int64(h.ExpirationHeight) > ctx.BlockHeight() && !seen[h.ExpirationHeight] {
+			seen[h.ExpirationHeight] = true
+			hs = append(hs, h.ExpirationHeight)
+		}
+	}
+	sort.Slice(hs, func(i, j int) bool { return hs[i] < hs[j] })
+	var out []string
+	for _, e := range hs {
+		t := ctx.BlockTime().Add(time.Duration(int64(e)-ctx.BlockHeight()) * 5 * time.Second)
+		out = append(out, "htlc begin_block "+hx.KV("h", e, "t", t.UnixNano()))
+	}
+	return out
+}
+
 // GenesisState is the part of the projection that must survive an export/import round trip
 // (hx.GenesisStater): ExportGenesis keeps only OPEN contracts by design, so closed contracts are
 // left out, as are the block header and the bank slice (x/bank's own genesis).  The expiry queue
